@@ -155,6 +155,9 @@ Clean(x) == ~Taint(x)
 Payload       == \A x \in XS : (Clean(x) /\ Ok(x)) => delivered[x] = ref[x].expected
 \* a message cut short (or with invalid framing) is never a success
 TruncIsError  == \A x \in XS : (Clean(x) /\ Ok(x)) => ref[x].complete
+\* (strict reading of DESIGN section 7 / finding 11 - not reported: a chunked message cut inside its trailer
+\* section is an error too)
+TruncIsErrorStrict == \A x \in XS : (Clean(x) /\ Ok(x)) => ref[x].completeS
 \* a complete, well-framed message is a success (whatever the segmentation)
 CompleteIsOk  == \A x \in XS : (Clean(x) /\ Done(x) /\ ref[x].completeS) => Ok(x)
 \* the client only waits beyond the end of what the server sends when the framing is "until close"
